@@ -10,7 +10,7 @@ import random
 
 from .. import pipeline
 from ..gen import workload
-from ..mon import cellmon
+from ..mon import pkastub, cellmon
 from ..run import Res
 
 ID = "C14"
@@ -39,10 +39,14 @@ def cases(tier, seed):
             o.append("--noopt")
         if rng.random() < 0.1:
             o.append("--nodebump")
+        if rng.random() < 0.2:
+            # the pKa route (stubbed pKa source): hydrogens removed and rebuilt between the two debumping passes
+            o += pkastub.titration_opts(rng)
         return o
 
     for spec in workload.standard_cases(tier, seed, npipe, npipe, opts_fn=opts, frag_share=0.4,
                                         p={"dense_prob": 0.8, "damage_prob": 0.25, "crowd_prob": 0.25, "waters": [0, 3, 6, 10],
+                                           "hydrogens": ["none", "none", "all", "some"],
                                            "na_prob": 0.08}):
         spec["kind"] = "pipe"
         out.append(spec)
@@ -178,7 +182,10 @@ def run_pipe(spec, res):
     cellmon.drain()
     FNA["n"] = 0
     FNA["bad"] = []
-    r = pipeline.run(m["text"], spec["opts"], workname="c14")
+    with pkastub.for_opts(spec["opts"], m["truth"], spec["seed"]) as titr:
+        r = pipeline.run(m["text"], spec["opts"], workname="c14")
+    if titr is not None:
+        res.count("pka_route_runs")
     events, q, sites = cellmon.drain()
     res.count("invivo_queries", q)
     res.count("find_nearby_atoms_differential", FNA["n"])
@@ -200,7 +207,9 @@ def run_pipe(spec, res):
                     f"dist {e.get('dist', 0):.3f} other_cell {e.get('other_cell')}", event=e,
                     n_events=sum(1 for x in events if x["kind"] == e["kind"] and x["cause"] == e["cause"] and x["role"] == e["role"]))
     for b in FNA["bad"][:3]:
-        res.violate(f"invivo/find_nearby_atoms/{b['kind']}", b["detail"], **b)
+        res.violate(f"invivo/find_nearby_atoms/{b['kind']}", b["detail"],
+                    **{k: v for k, v in b.items() if k not in ("detail", "mech")}, ff=spec["ff"], opts=spec["opts"],
+                    seed=spec["seed"])
     res.sample = {"kind": "pipe", "w": spec["w"], "seed": spec["seed"], "opts": spec["opts"], "queries": q,
                   "sites": sites, "ok": r.ok}
 
